@@ -61,11 +61,16 @@ def gen_config(r, index=None, subset_cycle=False, force_mode=None):
         d['nchars'] = cfg['nchars']
         cfg['decoder'] = d
     procs = 1 if mode == 'ocr' else r.choice([1, 1, 2, 3])
+    if mode in ('crop', 'decode') and not with_images and index is None and r.random() < 0.06:
+        # enough pages for string order and numeric order of the ids to differ (p10 < p2)
+        pages = [{'id': 'p%d' % k, 'ext': '.png', 'regions': 1,
+                  'lines': [{'blocks': 3, 'frames': 3, 'seed': r.randrange(1 << 30), 'amb': 0.3}]} for k in range(1, r.randint(11, 13))]
     plan = {'world': 'pf', 'mode': mode, 'with_images': with_images, 'cfg': cfg, 'pages': pages,
             'outputs': outputs, 'procs': procs, 'ids_class': cls,
             'transcriptions_file': r.random() < 0.15,
             'paths_in_config': [k for k in outputs if r.random() < 0.5] if r.random() < 0.25 else [],
             'folders': folder_layout(r, outputs),
+            'junk': r.random() < 0.15,
             'clock': {'inc': [r.choice([0.001, 0.05, 2.0]) for _ in range(3)],
                       'jumps': {str(r.randint(0, 30)): r.choice([-3600.0, 86400.0, -1.5])} if r.random() < 0.3 else {}}}
     return plan
@@ -117,6 +122,14 @@ def make_plan(seed, tier, index, n_layer_a, subset_cycle):
         w = total_writes(plan)
         ncrash = r.choice([1, 2, 2, 3, 3])
         plan['runs'] = [run_spec(r, plan, crash_at=r.randint(0, max(1, w - (0 if k == 0 else r.randint(0, w))))) for k in range(ncrash)]
+        for rs in plan['runs']:
+            if r.random() < 0.2:
+                # instead of (or in addition to) a kill: a transient failure of one page - an exception while
+                # processing it, or a write error on one of its outputs; the driver reports it and carries on
+                pg = r.choice([p['id'] for p in plan['pages'] if not p.get('no_xml')])
+                rs['fail'] = {'page': pg, 'at_write': r.choice([None, 0, 1, 2])}
+                if r.random() < 0.6:
+                    rs['crash_at'] = None
         plan['resume'] = run_spec(r, plan)
         plan['nothing'] = run_spec(r, plan)
     return plan
@@ -146,12 +159,27 @@ def missing_kinds(exp_p, snap):
     return [k for k in KINDS if k in exp_p and any(f not in snap for f in exp_p[k])]
 
 
+def seed_junk(world, out):
+    """Unrelated files that already sit in the output folders (a desktop database, a note): they must be
+    ignored and must survive."""
+    if not world.plan.get('junk'):
+        return
+    for kind in world.plan['outputs']:
+        d = os.path.join(out, world.dirname(kind))
+        os.makedirs(d, exist_ok=True)
+        for name, data in (('Thumbs.db', b'\x00junk'), ('readme.txt', b'not an output\n')):
+            with open(os.path.join(d, name), 'wb') as f:
+                f.write(data)
+    world.res.probe('unrelated_files_in_output_folders')
+
+
 def check_history(world, tree, runs, gt_snap, exp, label):
     """Runs a history (list of process specs; the last two are the uninterrupted resume
     and the nothing-left run) and checks every run against the resume model.
     Returns the first Violation or None."""
     plan, res = world.plan, world.res
     out = os.path.join(world.root, tree)
+    seed_junk(world, out)
     ids = [p['id'] for p in plan['pages'] if not p.get('no_xml')]
     bitmaps = []
     V = None
@@ -220,7 +248,10 @@ def check_history(world, tree, runs, gt_snap, exp, label):
             V = kernel.Violation('C17', 'skipped', 'skipped-incomplete|missing=%s|ids=%s' % ('+'.join(missing_kinds(exp[p], before)), id_class(p, ids)),
                                  '%s run %d (%s): page %r lacks %s but was not processed' % (label, ri, role, p, missing_kinds(exp[p], before)))
             break
-        bad = [p for p in ids if not is_complete(exp[p], after)]
+        failed = set(getattr(proc, 'failed_pages', []) or [])
+        if failed:
+            res.probe('page_failed_transiently')
+        bad = [p for p in ids if not is_complete(exp[p], after) and p not in failed]
         if bad:
             p = bad[0]
             V = kernel.Violation('C17', 'incomplete', 'incomplete-after-clean-run|missing=%s' % '+'.join(missing_kinds(exp[p], after)),
@@ -229,8 +260,8 @@ def check_history(world, tree, runs, gt_snap, exp, label):
         if role == 'nothing' and (processed or proc.writes_done > (1 if plan.get('transcriptions_file') else 0)):
             V = kernel.Violation('C17', 'repeated-work', 'nothing-left-run-did-work', '%s run %d: nothing was left but %s processed / %d writes' % (label, ri, processed, proc.writes_done))
             break
-        # (2) equality with the uninterrupted run
-        if gt_snap is not None:
+        # (2) equality with the uninterrupted run (not yet for a run in which a page failed transiently)
+        if gt_snap is not None and not failed:
             for f, dg in gt_snap.items():
                 if f == 'transcriptions.txt':
                     continue
@@ -276,6 +307,7 @@ def execute(plan, world_cls=PfWorld):
             res.probe('id_with_extension_token_or_alias')
         # ground truth: uninterrupted sequential run in a fresh tree
         gt_spec = dict(plan['resume'], crash_at=None, procs=1, listdir_seed=None)
+        seed_junk(world, os.path.join(world.root, 'gt'))
         gt_proc = world.simulate_process(os.path.join(world.root, 'gt'), gt_spec)
         gt_snap = snapshot(os.path.join(world.root, 'gt'))
         if plan['mode'] == 'layout' and 'lines' in plan['outputs']:
